@@ -16,6 +16,7 @@ import (
 	fgzip "github.com/intel/fastgo/compress/gzip"
 	fzlib "github.com/intel/fastgo/compress/zlib"
 	"github.com/intel/fastgo/internal/cpu"
+	"github.com/intel/fastgo/verif/env"
 	"github.com/intel/fastgo/verif/mc"
 	"github.com/intel/fastgo/verif/refinflate"
 )
@@ -84,6 +85,9 @@ func Guard(f func()) (pi *PanicInfo) {
 			}
 			if isEngineSentinel(r) {
 				panic(r)
+			}
+			if _, ok := r.(env.WouldBlock); ok {
+				panic(r) // a gated source's "would block": control flow of the harness, not a library panic
 			}
 			st := make([]byte, 16384)
 			st = st[:runtime.Stack(st, false)]
